@@ -96,6 +96,18 @@ func (t *Tape) Chance(num, den int) bool {
 
 // Pick chooses an index with the given integer weights; index 0 is simplest.
 func (t *Tape) Pick(weights ...int) int {
+	if !t.replaying && len(t.forced) > 0 {
+		// a forced value (stratified sweep) names the alternative itself, not a point in the weighted range
+		idx := int(t.forced[0]) % len(weights)
+		if idx < 0 {
+			idx = 0
+		}
+		v := 0
+		for i := 0; i < idx; i++ {
+			v += weights[i]
+		}
+		t.forced[0] = int32(v)
+	}
 	total := 0
 	for _, w := range weights {
 		total += w
